@@ -175,7 +175,7 @@ func runScenario(agentBin string, sc scenario) result {
 	defer os.RemoveAll(home)
 	os.MkdirAll(filepath.Join(home, ".config", "gcloud"), 0o755)
 	args := []string{"--proxy", proxy.URL + "/", "--backend", "verif-backend", "--host", strings.TrimPrefix(backend.URL, "http://"), "--disable-gce-vm-header"}
-	if sc.Kind != "nohealth" && sc.Kind != "graceful" {
+	if (sc.Kind != "nohealth" && sc.Kind != "graceful") || (sc.Kind == "graceful" && len(sc.Checks) > 0) {
 		args = append(args, "--health-check-path", "/healthz", "--health-check-interval-seconds", "1", fmt.Sprintf("--health-check-unhealthy-threshold=%d", sc.Threshold))
 	}
 	if sc.GraceMs > 0 {
@@ -210,7 +210,7 @@ func runScenario(agentBin string, sc scenario) result {
 		}
 		time.Sleep(time.Duration(sc.SignalAfterMs) * time.Millisecond)
 		// send the signal while a pending-list call is in flight (100..250 ms into its 400 ms hold), never at a poll boundary
-		for i := 0; i < 400; i++ {
+		for i := 0; i < 400 && sc.Phase != "health-wait"; i++ {
 			mu.Lock()
 			ok := listInFlight > 0 && time.Since(lastListStart) >= 100*time.Millisecond && time.Since(lastListStart) <= 250*time.Millisecond
 			mu.Unlock()
@@ -278,6 +278,8 @@ func main() {
 			scenario{Name: "graceful-3s-backend-finishes-" + sig, Kind: "graceful", GraceMs: 3000, Signal: sig, Phase: "at-backend", BackendMs: 1200, SignalAfterMs: 200},
 			scenario{Name: "graceful-1s-backend-too-slow-" + sig, Kind: "graceful", GraceMs: 1000, Signal: sig, Phase: "at-backend", BackendMs: 2500, SignalAfterMs: 200},
 			scenario{Name: "graceful-off-at-backend-" + sig, Kind: "graceful", GraceMs: 0, Signal: sig, Phase: "at-backend", BackendMs: 1500, SignalAfterMs: 200},
+			scenario{Name: "signal-while-waiting-for-health-" + sig, Kind: "graceful", GraceMs: 0, Signal: sig, Phase: "health-wait", SignalAfterMs: 1500, Checks: []bool{F, F, F, F, F, F, F, F, F, F, F, F}, Threshold: 2},
+			scenario{Name: "signal-while-waiting-for-health-grace-1s-" + sig, Kind: "graceful", GraceMs: 1000, Signal: sig, Phase: "health-wait", SignalAfterMs: 1500, Checks: []bool{F, F, F, F, T}, Threshold: 2},
 			scenario{Name: "graceful-2s-idle-list-503-" + sig, Kind: "graceful", GraceMs: 2000, Signal: sig, Phase: "idle", SignalAfterMs: 700, ListFault: "503"},
 			scenario{Name: "graceful-3s-backend-list-503-" + sig, Kind: "graceful", GraceMs: 3000, Signal: sig, Phase: "at-backend", BackendMs: 1200, SignalAfterMs: 200, ListFault: "503"},
 		)
